@@ -53,7 +53,7 @@ impl ExecuteResponse {
 //@ fn src/wasm.rs :: WasmKeeper :: execute_wasm
 //@   ret r
 //@   no_decreases
-//@   ensures [C05.exec_wasm.sem,C04,C12,C11,C17] (r, final(storage).view()) == self.exec_wasm_sem(router, old(storage).view(), *block, sender, msg)
+//@   ensures [C05.exec_wasm.sem,C04,C12,C11,C17,C10] (r, final(storage).view()) == self.exec_wasm_sem(router, old(storage).view(), *block, sender, msg)
 //@   begin broadcast use {axiom_vec_canon, axiom_vec_of_view, axiom_str_canon, axiom_str_of_view, lemma_str_ext_b, lemma_vec_ext_b};
 //@   replace? "new_code_id.to_string()" => "u64_to_string(new_code_id)"
 //@   before? "let (sub_response, sub_messages) =" proof { lemma_entry_event(custom_event, "execute"@, contract_addr, Seq::<Attribute>::empty()); }
@@ -62,7 +62,7 @@ impl ExecuteResponse {
 //@ fn src/wasm.rs :: WasmKeeper :: process_wasm_msg_instantiate
 //@   ret r
 //@   no_decreases
-//@   ensures [C05.instantiate.sem,C04,C11] (r, final(storage).view()) == self.instantiate_arm(router, old(storage).view(), *block, sender, admin, code_id, msg, funds, label, salt)
+//@   ensures [C05.instantiate.sem,C04,C11,C10] (r, final(storage).view()) == self.instantiate_arm(router, old(storage).view(), *block, sender, admin, code_id, msg, funds, label, salt)
 //@   begin broadcast use {axiom_vec_canon, axiom_vec_of_view, axiom_str_canon, axiom_str_of_view, lemma_str_ext_b, lemma_vec_ext_b};
 //@   replace? "code_id.to_string()" => "u64_to_string(code_id)"
 //@   before? "let (res, msgs) = self.build_app_response(&contract_addr, custom_event, res);" proof { lemma_entry_event(custom_event, "instantiate"@, contract_addr, seq![attr_of("code_id"@, spec_u64_text(code_id))]); }
